@@ -116,6 +116,8 @@ def chain_case(draw, max_decaying=6, max_daughters=4, max_mult=3, names=None, bf
     used = {decaying[0]}
     for i, m in enumerate(decaying):
         k = draw(st.integers(1, max_daughters))
+        if i > 0 and draw(st.sampled_from((False,) * 11 + (True,))):
+            k = 0  # a decaying particle whose decay has no daughters at all (e.g. an invisible decay)
         ds = []
         lower = decaying[i + 1:]
         for _ in range(k):
